@@ -105,7 +105,7 @@ pub fn c01(tier: Tier) -> i32 {
         "refmodel is a faithful reading of TOML 1.0.0 (validated against the toml-test corpus at setup and against tomllib in the thorough tier)".into(),
         "class U1 documents are skipped and counted (DESIGN.md 3.3)".into(),
     ];
-    docu::run(&mut rep, tier, &["tok", "ctx", "esc", "num", "edge", "dt", "stmt", "inline-stmt", "byte", "corpus", "decor", "cp", "utf8"], &c01_eval);
+    docu::run(&mut rep, tier, &["tok", "ctx", "esc", "num", "edge", "dt", "stmt", "inline-stmt", "byte", "corpus", "decor", "cp", "utf8", "nest"], &c01_eval);
     rep.finish()
 }
 
